@@ -407,7 +407,59 @@ def r06_3(ctx: Ctx, rep: Report) -> None:
     rep.floor(9, "line getter/setter pairs")
 
 
+TEXT_NORMALISERS = ["helpers.init_line", "helpers.init_remark_text", "helpers.init_name", "helpers.int_to_str", "helpers.replace_spaces"]
+
+
+def _is_ws_normalising(e: ast.AST) -> bool:
+    """strip()/replace_spaces()/" ".join(x.split()): idempotent whitespace normalisations."""
+    if isinstance(e, ast.Call) and isinstance(e.func, ast.Attribute) and e.func.attr == "strip" and not e.args:
+        return True
+    if isinstance(e, ast.Call) and src(e.func).split(".")[-1] == "replace_spaces":
+        return True
+    if isinstance(e, ast.Call) and isinstance(e.func, ast.Attribute) and e.func.attr == "join" and isinstance(e.func.value, ast.Constant) and e.func.value.value == " " and e.args and isinstance(e.args[0], ast.Call) and isinstance(e.args[0].func, ast.Attribute) and e.args[0].func.attr == "split" and not e.args[0].args:
+        return True
+    return False
+
+
+def normaliser_fixed_point(ctx: Ctx, rep: Report, rid: str = "R06.5") -> None:
+    """What a text initialiser returns is the direct result of an idempotent whitespace normalisation
+    (nothing is cut, appended or re-formatted afterwards), so the stored text is a fixed point of it."""
+    rep.rule(rid)
+    for q in TEXT_NORMALISERS:
+        f = ctx.prog.find_func(q)
+        if f is None:
+            continue
+        rep.instance()
+        bad = None
+        for p in function_paths(ctx.cfg(f)):
+            if p.raises or p.ret is None:
+                continue
+            e = p.ret
+            if isinstance(e, ast.Name) and e.id in p.env:
+                e = p.env[e.id]
+            if isinstance(e, ast.Call) and isinstance(e.func, ast.Name) and e.func.id == "str" and e.args and isinstance(p.ret, ast.Name):
+                # int_to_str: the int branch `line = str(line)` is followed by the normaliser on the same path
+                continue
+            if not _is_ws_normalising(e):
+                bad = (p.ret, e)
+        if bad is None:
+            rep.ok(q, "returns the direct result of strip()/replace_spaces()", where=where(f))
+        else:
+            rep.violation(q, f"return {snippet(bad[0])} = {snippet(bad[1])}", "the returned text is transformed after the whitespace normalisation (cut, padded, re-formatted): it can end in a blank or differ from what the parser yields for the rendered line", where(f), inp="a remark longer than the cut with a blank at the cut position")
+    rep.floor(4, "text initialisers")
+
+
 def run(ctx: Ctx, rep: Report, tier: str) -> None:
+    from . import c01
+    from .c08 import validated_is_returned
+
+    sub = Report("C06")
+    orders = c01.r01_1(ctx, sub)
+    c01.r01_2(ctx, sub, orders)
+    c01.setter_completeness(ctx, sub)
+    rep.absorb(sub, "R06.0")
+    normaliser_fixed_point(ctx, rep)
+    validated_is_returned(ctx, rep, rid="R06.4")
     r06_1(ctx, rep)
     normalise_first(ctx, rep, rid="R06.2")
     r06_3(ctx, rep)
